@@ -32,7 +32,10 @@ ENGINES = [
                         "(hoisted assignment expressions, dictionary "
                         "displays with unpacking, parallel assignments, "
                         "struct.Struct objects, bound-method aliases, slice "
-                        "objects, numeric constants given a name). A rule that cannot read a construct has "
+                        "objects, numeric constants given a name, boolean "
+                        "flags tested with 'is True'); functions are read "
+                        "with parameters added since the reference tree at "
+                        "their defaults. A rule that cannot read a construct has "
                         "no verdict (UNDECIDED) instead of raising an alarm"),
 ]
 
@@ -698,7 +701,10 @@ _GENERIC9 = (" In the same packages (SLIPS, each with a positive example "
              "path that passes none of its bindings, no lru_cache hands out "
              "a mutable object its function made, no value computed from a "
              "container before a loop is read in the loop while the loop "
-             "adds to the container; the values a package function returns "
+             "adds to the container, no collection worked out from an "
+             "object before a loop is gone through in the loop after the "
+             "loop re-bound the object, no clean-up is written twice in "
+             "place of finally; the values a package function returns "
              "as (.. y .., .. x ..) are not unpacked under names that say "
              "(x, y).")
 for _k in sorted(CHECKS):
@@ -713,7 +719,11 @@ for _k in sorted(CHECKS):
         "delegates to helpers / methods the reference tree did not have, is "
         "rewritten beyond 12 statements of the reference function, or when "
         "the value concerned is one the engines could not interpret; "
-        "findings derived from what the code does are never withheld.")
+        "findings derived from what the code does are never withheld. A "
+        "parameter added since the reference tree (constant default, not "
+        "passed by any call in the package) is read at its default: whether "
+        "the property holds when the new option is used is not decided "
+        "(printed as UNDECIDED rules=new-options).")
 for _k in ("C08", "C11", "C13", "C15", "C16", "C19"):
     CHECKS[_k]["text"] += (" Calls of package functions in the property's "
                            "modules pass every argument that shares a "
@@ -735,6 +745,17 @@ CHECKS["C02"]["text"] += (" The Hilbert placer's level count is "
                           "ceil(log2(max(width, height))) (R9).")
 CHECKS["C12"]["text"] += (" No method stores None into (or deletes) an "
                           "entry of a node's sub-trees (R3).")
+CHECKS["C05"]["text"] += (" The reservation tables are only read while "
+                          "ranges are handed out (R2); slices_overlap is "
+                          "half-open intersection on all 75 orderings of "
+                          "four integer endpoints, also when written with "
+                          "stop - 1 (R1).")
+CHECKS["C16"]["text"] += (" The array converter compares / clips the scaled "
+                          "values, never the caller's unscaled array, with "
+                          "the integer bounds (R2).")
+CHECKS["C20"]["text"] += (" No option value is passed over or replaced on a "
+                          "truth test, in update_default_values or in "
+                          "boot() (R3).")
 for _k, _old, _new in _AMEND:
     assert _old in CHECKS[_k]["text"], (_k, _old)
     CHECKS[_k]["text"] = CHECKS[_k]["text"].replace(_old, _new, 1)
